@@ -349,7 +349,9 @@ impl<'a> Layout<'a> {
                 }
                 2 => {
                     self.hit("comment.block");
-                    out.push_str("/* block\n * 1: required i32 x, */");
+                    // several spellings of a block comment: with text, empty, doc style, with
+                    // stars and slashes inside, immediately closed after a star
+                    out.push_str(*self.rng.pick(&["/* block\n * 1: required i32 x, */", "/**/", "/***/", "/** doc */", "/* a * b / c **/", "/*/ */", "/* // # */"]));
                 }
                 3 => out.push('\n'),
                 4 => out.push('\t'),
